@@ -245,7 +245,8 @@ def report(args, P, results, known, seed, t0):
     # ---------------------------------------------------------------- verdict
     out_lines = []
     exit_code = 0
-    replay_dir = os.path.join(VERIF, "replays", prop)
+    OUT = os.environ.get("PYVC_OUT", VERIF)      # seeded-change runs write their evidence and replays elsewhere
+    replay_dir = os.path.join(OUT, "replays", prop)
     if os.path.isdir(replay_dir) and not args.only:
         for fn in os.listdir(replay_dir):            # replay files always describe the current run
             try:
@@ -332,8 +333,8 @@ def report(args, P, results, known, seed, t0):
         "assumptions": TRUSTED_BASE + P.get("assumed", []),
         "wall_s": round(wall, 2), "violations": vcount,
     }
-    os.makedirs(os.path.join(VERIF, "evidence"), exist_ok=True)
-    with open(os.path.join(VERIF, "evidence", prop + ".json"), "w") as f:
+    os.makedirs(os.path.join(OUT, "evidence"), exist_ok=True)
+    with open(os.path.join(OUT, "evidence", prop + ".json"), "w") as f:
         json.dump(ev, f, indent=1, default=str)
     print("%s tier=%s obligations=%d discharged=%d violations=%d undecided=%d paths=%d solver_s=%.1f wall=%.1fs exit=%d"
           % (prop, args.tier, obligations, discharged, vcount, len(undecided), paths, solver_s, wall, exit_code))
